@@ -23,8 +23,11 @@ Plain    == Prefixes \cup Resps \cup Hdrs
 Auths    == { [k |-> "basic", user |-> "joe", pw |-> "s:~ ?>"], [k |-> "token", tok |-> "T0K"],
               [k |-> "client", user |-> "cid", pw |-> "s>c~?"] }
 AdapterArgs == { <<a>> : a \in Plain } \cup { <<a, b>> : a \in Prefixes \cup Resps, b \in Prefixes \cup Resps }
-Components == { "c1", "c2", "c0" }                 \* c0 has the empty prefix (base connection itself)
-PrefixOf(comp) == CASE comp = "c1" -> <<"m1">> [] comp = "c2" -> <<"m2", "v">> [] OTHER -> <<>>
+Components == { "c1", "c2", "c0", "c3" }           \* c0 has the empty prefix (base connection itself);
+                                                   \* c3 has the prefix of c1 plus a trailing slash ("/m1/")
+(* <<segments, trailing slash>> *)
+PrefixOf(comp) == CASE comp = "c1" -> << <<"m1">>, FALSE >> [] comp = "c2" -> << <<"m2", "v">>, FALSE >>
+                    [] comp = "c3" -> << <<"m1">>, TRUE >> [] OTHER -> << <<>>, FALSE >>
 
 VARIABLES conns,    \* Seq([ads |-> Seq(adapter), addr |-> STRING])
           callers,  \* Seq([conn |-> index, cache |-> [prefix segs -> conn index]])
@@ -39,16 +42,24 @@ RECURSIVE PathSegs(_, _)
 (* adapters are applied outermost first, each prefix goes in front of what is there already *)
 PathSegs(ads, segs) == IF ads = <<>> THEN segs
                        ELSE PathSegs(Tail(ads), IF Head(ads).k = "prefix" THEN Head(ads).segs \o segs ELSE segs)
+(* the same for the RELATIVE request path "x": a prefix without trailing slash runs into the first segment *)
+RECURSIVE PathRel(_, _, _)
+PathRel(ads, segs, lead) ==
+  IF ads = <<>> THEN segs
+  ELSE LET a == Head(ads) IN
+       IF a.k # "prefix" \/ a.segs = <<>> THEN PathRel(Tail(ads), segs, lead)
+       ELSE IF a.trail \/ lead THEN PathRel(Tail(ads), a.segs \o segs, TRUE)
+       ELSE PathRel(Tail(ads), SubSeq(a.segs, 1, Len(a.segs) - 1) \o << a.segs[Len(a.segs)] \o segs[1] >> \o Tail(segs), TRUE)
 AuthOf(ads) == IF HasAuth(ads) THEN ads[CHOOSE i \in 1 .. Len(ads) : IsAuth(ads[i])] ELSE [k |-> "noauth"]
 RECURSIVE RespTags(_)
 (* response processors run in reverse adapter order: innermost first *)
 RespTags(ads) == IF ads = <<>> THEN <<>>
                  ELSE RespTags(Tail(ads)) \o (IF Head(ads).k = "resp" THEN <<Head(ads).tag>> ELSE <<>>)
 ExtraHdrs(ads) == { <<ads[i].name, ads[i].val>> : i \in { j \in 1 .. Len(ads) : ads[j].k = "hdr" } }
-Expected(c) == [addr |-> conns[c].addr, segs |-> PathSegs(conns[c].ads, <<"x">>), auth |-> AuthOf(conns[c].ads),
+Expected(c) == [addr |-> conns[c].addr, segs |-> PathSegs(conns[c].ads, <<"x">>), rel |-> PathRel(conns[c].ads, <<"x">>, FALSE), auth |-> AuthOf(conns[c].ads),
                 resp |-> RespTags(conns[c].ads), hdrs |-> ExtraHdrs(conns[c].ads)]
 AllExpected(cs) == [c \in 1 .. Len(cs) |->
-                      [addr |-> cs[c].addr, segs |-> PathSegs(cs[c].ads, <<"x">>), auth |-> AuthOf(cs[c].ads),
+                      [addr |-> cs[c].addr, segs |-> PathSegs(cs[c].ads, <<"x">>), rel |-> PathRel(cs[c].ads, <<"x">>, FALSE), auth |-> AuthOf(cs[c].ads),
                        resp |-> RespTags(cs[c].ads), hdrs |-> ExtraHdrs(cs[c].ads)]]
 
 (* ---------------- actions ---------------- *)
@@ -95,12 +106,12 @@ CloneCaller(m, args, form) ==
 GetConn(m, comp) ==
                 /\ Can /\ m \in 1 .. Len(callers)
                 /\ LET pfx == PrefixOf(comp) IN
-                   IF pfx = <<>> \/ pfx \in DOMAIN callers[m].cache
+                   IF pfx[1] = <<>> \/ pfx \in DOMAIN callers[m].cache
                      THEN /\ UNCHANGED <<conns, callers>>
                           /\ Log([op |-> "getconn", caller |-> m, comp |-> comp,
-                                  result |-> IF pfx = <<>> THEN callers[m].conn ELSE callers[m].cache[pfx]], conns)
+                                  result |-> IF pfx[1] = <<>> THEN callers[m].conn ELSE callers[m].cache[pfx]], conns)
                      ELSE /\ Len(conns) < MaxConns
-                          /\ conns' = Append(conns, [ads |-> << [k |-> "prefix", segs |-> pfx, trail |-> FALSE] >>
+                          /\ conns' = Append(conns, [ads |-> << [k |-> "prefix", segs |-> pfx[1], trail |-> pfx[2]] >>
                                                               \o conns[callers[m].conn].ads,
                                                      addr |-> conns[callers[m].conn].addr, cls |-> "http"])
                           /\ callers' = [callers EXCEPT ![m].cache = (pfx :> (Len(conns) + 1)) @@ @]
@@ -146,6 +157,6 @@ AtMostOneAuth == \A c \in 1 .. Len(conns) : Cardinality({ i \in 1 .. Len(conns[c
 IsPrefixOf(s, t) == Len(s) <= Len(t) /\ SubSeq(t, 1, Len(s)) = s
 CacheOwn == \A m \in 1 .. Len(callers) : \A pfx \in DOMAIN callers[m].cache :
                LET own == conns[callers[m].cache[pfx]].ads  base == conns[callers[m].conn].ads IN
-                 /\ own # <<>> /\ own[1] = [k |-> "prefix", segs |-> pfx, trail |-> FALSE]
+                 /\ own # <<>> /\ own[1] = [k |-> "prefix", segs |-> pfx[1], trail |-> pfx[2]]
                  /\ \E n \in 0 .. Len(base) : IsPrefixOf(SubSeq(base, 1, n), Tail(own))
 =============================================================================
